@@ -211,6 +211,12 @@ func (la *LockAnalysis) entryFromCallers(fn *ssa.Function) (LockSet, bool) {
 						}
 						// passed as argument i to callee: find invocations of that parameter
 						callee := u.Common().StaticCallee()
+						if syncStdlibCaller(u) {
+							// maps.DeleteFunc, slices.ContainsFunc, sort.Slice, …, or the sequence returned by strings.SplitSeq,
+							// maps.Keys, …: the function value is invoked before the call returns, in the caller's lock context
+							sites = append(sites, u)
+							continue
+						}
 						if callee == nil {
 							return LockSet{}, true // escapes to unknown code: assume nothing held
 						}
@@ -249,6 +255,10 @@ func (la *LockAnalysis) entryFromCallers(fn *ssa.Function) (LockSet, bool) {
 			callee := u.Common().StaticCallee()
 			for i, a := range u.Common().Args {
 				if funcValueTarget(a) != fn {
+					continue
+				}
+				if syncStdlibCaller(u) {
+					sites = append(sites, u)
 					continue
 				}
 				if callee == nil || i >= len(callee.Params) {
@@ -423,6 +433,38 @@ func lockFor(ls LockSet, write bool) LockSet {
 		out[k] = true
 	}
 	return out
+}
+
+// syncStdlibCaller: the call hands its function-typed arguments to a standard-library helper that invokes them
+// synchronously (the higher-order helpers of maps, slices, sort, strings and bytes), or it is the call of a sequence
+// (`iter.Seq`) that such a package returned, with the loop body as its yield function.
+func syncStdlibCaller(u ssa.CallInstruction) bool {
+	syncPkg := func(f *ssa.Function) bool {
+		if f == nil {
+			return false
+		}
+		if f.Origin() != nil {
+			f = f.Origin()
+		}
+		if f.Pkg == nil {
+			return false
+		}
+		switch f.Pkg.Pkg.Path() {
+		case "maps", "slices", "sort", "strings", "bytes":
+			return true
+		}
+		return false
+	}
+	if callee := u.Common().StaticCallee(); callee != nil {
+		return syncPkg(callee)
+	}
+	if u.Common().IsInvoke() {
+		return false
+	}
+	if src, ok := u.Common().Value.(*ssa.Call); ok {
+		return syncPkg(src.Common().StaticCallee())
+	}
+	return false
 }
 
 // funcValueTarget: v is a function constant used as a value — the function itself, or the synthetic
